@@ -141,3 +141,7 @@ pub open spec fn i32_rotr(x: i32, n: u32) -> i32 {
 }
 pub assume_specification [i32::rotate_right] (x: i32, n: u32) -> (r: i32)
     ensures 0 < n < 32 ==> r == i32_rotr(x, n);
+
+// Rust guarantee: no slice / Vec<u8> is longer than isize::MAX bytes
+pub broadcast axiom fn axiom_slice_len(s: &[u8])
+    ensures #[trigger] s@.len() <= isize::MAX;
